@@ -47,6 +47,30 @@ def is_heap(tag):
     return isinstance(tag, tuple) and tag[0] in ('persist', 'self')
 
 
+def is_fresh_of(tag):
+    """('fresh_of', frozenset(tags)): a container created in this call whose *elements* carry the given tags."""
+    return isinstance(tag, tuple) and tag[0] == 'fresh_of'
+
+
+def _depth(t):
+    return 1 + max([_depth(x) for x in t[1]] + [0]) if is_fresh_of(t) else 0
+
+
+def fresh_of(elem_tags):
+    """Nested containers keep their nesting (an element of a fresh list of fresh lists is a fresh list); beyond
+    depth 3 the inner levels are flattened."""
+    inner = set()
+    for t in elem_tags:
+        if is_fresh_of(t):
+            if _depth(t) >= 3:
+                inner |= {x for x in t[1] if not is_fresh_of(x)}
+            else:
+                inner.add(t)
+        elif is_heap(t) or is_param(t):
+            inner.add(t)
+    return ('fresh_of', frozenset(inner)) if inner else FRESH
+
+
 def is_param(tag):
     return isinstance(tag, tuple) and tag[0] == 'param'
 
@@ -62,6 +86,7 @@ class Prov:
         self._busy = set()
         self._states = {}
         self._gassume = {}
+        self._nonlocal_vals = {}
         self.persistent_self = {}   # fn -> reached with a persistent receiver
 
     # ------------------------------------------------------------------ expression provenance
@@ -99,7 +124,39 @@ class Prov:
             return {self._field(t, e.attr) for t in base if t != NONE} or {FRESH}
         if isinstance(e, ast.Subscript):
             base = self.of(e.value, st, fn)
-            return {self._field(t, '[]') for t in base if t != NONE} or {FRESH}
+            if isinstance(e.slice, ast.Slice):
+                return {t for t in base if t != NONE} or {FRESH}
+            return self._elem(base)
+        if isinstance(e, (ast.ListComp, ast.SetComp, ast.GeneratorExp, ast.DictComp)):
+            st2 = dict(st)
+            for g in e.generators:
+                el = self._elem(self.of(g.iter, st2, fn))
+                it = g.iter
+                if isinstance(it, ast.Call) and call_name(it) in ('enumerate', 'zip', 'items', 'values', 'keys') and \
+                        (it.args or isinstance(it.func, ast.Attribute)):
+                    srcs = list(it.args) + ([it.func.value] if isinstance(it.func, ast.Attribute) else [])
+                    el = set()
+                    for s_ in srcs:
+                        el |= self._elem(self.of(s_, st2, fn))
+                    el |= {FRESH}
+                for nm in target_names(g.target):
+                    st2[nm] = frozenset(el)
+            elts = [e.value] if isinstance(e, ast.DictComp) else [e.elt]
+            tags = set()
+            for x in elts:
+                tags |= self.of(x, st2, fn)
+            return {fresh_of(tags)}
+        if isinstance(e, (ast.List, ast.Set, ast.Tuple)):
+            tags = set()
+            for x in e.elts:
+                tags |= self.of(x, st, fn)
+            return {fresh_of(tags)}
+        if isinstance(e, ast.Dict):
+            tags = set()
+            for x in e.values:
+                if x is not None:
+                    tags |= self.of(x, st, fn)
+            return {fresh_of(tags)}
         if isinstance(e, ast.IfExp):
             asm = self.assume_for(fn)
             if isinstance(e.test, ast.Name) and e.test.id in asm:
@@ -123,12 +180,27 @@ class Prov:
 
     @staticmethod
     def _field(tag, what):
+        if is_fresh_of(tag):
+            # handled by _elem (may yield several tags); attribute access on the container itself is fresh
+            return FRESH
         if is_heap(tag):
             return tag if what == '[]' and tag[1].endswith('[]') else (tag[0], tag[1] + ('[]' if what == '[]'
                                                                                        else '.' + what))
         if is_param(tag):
             return tag
         return FRESH
+
+    def _elem(self, tags):
+        """Provenance of an element of a container with the given provenance."""
+        out = set()
+        for t in tags:
+            if t == NONE:
+                continue
+            if is_fresh_of(t):
+                out |= set(t[1])
+            else:
+                out.add(self._field(t, '[]'))
+        return out or {FRESH}
 
     def _self_attr(self, attr, fn, st):
         cls = fn.owner_class
@@ -157,21 +229,52 @@ class Prov:
                     stn = states.get(n.id)
                     if stn and name in stn:
                         out |= stn[name]
+                # assignments made by nested functions that declare the name `nonlocal` (they persist across
+                # calls of the nested function)
+                for h in self._nested_all(g):
+                    if name in self._nonlocals(h):
+                        hs = self._nonlocal_vals.get((h, name))
+                        if hs:
+                            out |= hs
                 return out or {FRESH}
             g = g.parent
         return {FRESH}
+
+    def _nested_all(self, g):
+        out = []
+        stack = list(g.nested.values())
+        while stack:
+            h = stack.pop()
+            out.append(h)
+            stack += list(h.nested.values())
+        return out
+
+    @staticmethod
+    def _nonlocals(h):
+        names = set()
+        if isinstance(h.node, ast.Lambda):
+            return names
+        for s_ in walk_no_nested(ast.Module(body=list(h.node.body), type_ignores=[])):
+            if isinstance(s_, ast.Nonlocal):
+                names |= set(s_.names)
+        return names
 
     def _call(self, call, st, fn):
         f = call.func
         name = call_name(call)
         if isinstance(f, ast.Name) and f.id in COPY_FUNCS and self.prog.resolve(fn.module, f.id) is None:
+            if f.id in ('list', 'set', 'tuple', 'sorted', 'frozenset', 'reversed', 'dict', 'OrderedDict', 'iter') \
+                    and call.args:
+                return {fresh_of(self._elem(self.of(call.args[0], st, fn)))}
             return {FRESH}
         if isinstance(f, ast.Attribute):
             recv = self.of(f.value, st, fn)
             if name in COPY_METHODS and not self._repo_targets(call, fn):
+                if name in ('copy', 'items', 'keys', 'values', 'union', 'intersection', 'difference'):
+                    return {fresh_of(self._elem(recv))}
                 return {FRESH}
             if name in ELEM_METHODS and not self._repo_targets(call, fn):
-                return {self._field(t, '[]') for t in recv if t != NONE} or {FRESH}
+                return self._elem(recv)
         else:
             recv = set()
         targets = self._repo_targets(call, fn)
@@ -390,6 +493,25 @@ class Prov:
                             changed = True
                     if changed:
                         work.append(m)
+        nl = self._nonlocals(fn)
+        if nl:
+            changed_any = False
+            for name in nl:
+                vals = set()
+                for stn in IN.values():
+                    if stn and name in stn:
+                        vals |= {t for t in stn[name]}
+                old = self._nonlocal_vals.get((fn, name), set())
+                if not vals <= old:
+                    self._nonlocal_vals[(fn, name)] = old | vals
+                    changed_any = True
+            if changed_any and not getattr(self, '_rerun_guard', False):
+                self._rerun_guard = True
+                try:
+                    del self._states[key]
+                    return self.states(fn)
+                finally:
+                    self._rerun_guard = False
         return IN
 
     def _refine(self, n, lab, st, fn):
@@ -448,7 +570,7 @@ class Prov:
                                                          cur, fn)
                             per.append(acc)
             for i, el in enumerate(target.elts):
-                sub = per[i] if per is not None else {self._field(t, '[]') for t in tags if t != NONE} or {FRESH}
+                sub = per[i] if per is not None else self._elem(tags)
                 if isinstance(el, ast.Starred):
                     el = el.value
                 self._assign(st, el, sub, fn, None, cur)
@@ -483,15 +605,14 @@ class Prov:
         if n.kind == 'for':
             new = dict(st)
             tags = self.of(a.iter, st, fn)
-            elem = {self._field(t, '[]') for t in tags if t != NONE} or {FRESH}
+            elem = self._elem(tags)
             it = a.iter
             if isinstance(it, ast.Call) and call_name(it) in ('enumerate', 'zip', 'items', 'values', 'keys') and \
                     (it.args or isinstance(it.func, ast.Attribute)):
                 srcs = list(it.args) + ([it.func.value] if isinstance(it.func, ast.Attribute) else [])
                 elem = set()
                 for s in srcs:
-                    elem |= {self._field(t, '[]') for t in self.of(s, st, fn) if t != NONE}
-                elem = elem or {FRESH}
+                    elem |= self._elem(self.of(s, st, fn))
                 elem = elem | {FRESH}
             for nm in target_names(a.target):
                 new[nm] = frozenset(elem)
